@@ -6,6 +6,9 @@
 static size_t put(char *out, size_t k, sv_t v) { for (size_t i = 0; i < v.n; i++) out[k + i] = v.p[i]; return k + v.n; }
 void harness(void) {
   ND_AGG(u); agg_view_t v; (void)agg_wf_view(&u, &v);
+  /* the 'credentials written, @ and host not yet' state exists only inside the parser between the AUTHORITY and HOST states
+   * (the editors that run there are checked with PENDING_OK); it is never the state of an object handed to a caller */
+  __CPROVER_assume(!v.pending_at);
   const char *b = u.buffer.d;
   sv_t proto = agg_get_protocol(&u), user = agg_get_username(&u), pass = agg_get_password(&u), host = agg_get_host(&u),
        hostname = agg_get_hostname(&u), port = agg_get_port(&u), path = agg_get_pathname(&u), search = agg_get_search(&u),
